@@ -37,7 +37,7 @@ theorem memo_all_same (es : List Ev) (s : St) (h : model.run model.init es = som
 /-- a waiting call is released as soon as the result is published -/
 theorem waiting_enabled (s : St) (t v e : Nat) (ht : s.th[t]? = some .waiting) (hc : s.cell = some (v, e)) :
     ∃ s', step s (.read t) = some s' ∧ s'.th[t]? = some (.retd v e) := by
-  exact ⟨_, by simp [step, ht, hc], by simp [lt_of_getElem? ht]⟩
+  exact ⟨{ s with th := s.th.set t (.retd v e) }, by simp [step, ht, hc], by simp [lt_of_getElem? ht]⟩
 
 /-! ## observable form -/
 
@@ -69,31 +69,41 @@ theorem ex_set_irrel (P : PC → Prop) (l : List PC) (t : Nat) (a b : PC) (ha : 
     · subst hut; rw [ha] at hu; cases hu; exact absurd hp hna
     · exact ⟨u, pc, by rw [getElem?_set_ne' _ _ _ _ (fun e => hut e.symm)]; exact hu, hp⟩
 
-/-- a step of call `t` between two states that are neither inside the function nor finished, with the
+/-- a step of call `t` between two program counters that are not inside the function, with the
 cell unchanged, is invisible to the monitor -/
-theorem rel_irrel (s : St) (ms : MSt) (hR : Rel s ms) (t : Nat) (a b : PC) (ha : s.th[t]? = some a)
-    (hi' : Inv { s with th := s.th.set t b }) (hna : ¬ a.isIn) (hnb : ¬ b.isIn)
-    (hd : a.isDone = b.isDone) : Rel { s with th := s.th.set t b } ms := by
-  refine ⟨hi', by simp [hR.len], ?_, ?_, hR.outC, ?_, ?_⟩
+theorem rel_irrel (s s' : St) (ms : MSt) (hR : Rel s ms) (t : Nat) (a b : PC) (ha : s.th[t]? = some a)
+    (hth : s'.th = s.th.set t b) (hcell : s'.cell = s.cell)
+    (hi' : Inv s') (hna : ¬ a.isIn) (hnb : ¬ b.isIn)
+    (hd : a.isDone = b.isDone) : Rel s' ms := by
+  refine ⟨hi', by simp [hth, hR.len], ?_, ?_, by rw [hcell]; exact hR.outC, ?_, ?_⟩
   · intro u pc bb hu hm
-    simp only at hu
+    rw [hth] at hu
     rcases getElem?_set_cases s.th t u b pc hu with ⟨rfl, rfl⟩ | ⟨_, hx⟩
     · rw [← hd]; exact hR.done u a bb ha hm
     · exact hR.done u pc bb hx hm
-  · rw [hR.ent]; simp only
+  · rw [hR.ent, hcell, hth]
     rw [ex_set_irrel PC.isIn s.th t a b ha hna hnb]
   · intro u v e hu
-    simp only at hu
+    rw [hth] at hu
     rcases getElem?_set_cases s.th t u b _ hu with ⟨_, h⟩ | ⟨_, hx⟩
     · subst h; exact absurd (by simp [PC.isIn]) hnb
     · exact hR.outT u v e hx
   · intro h
+    rw [hcell, hth]
     rcases hR.outN h with h1 | ⟨u, v, e, hu⟩
     · exact Or.inl h1
     · right
       by_cases hut : u = t
       · subst hut; rw [ha] at hu; cases hu; exact absurd (by simp [PC.isIn]) hna
-      · exact ⟨u, v, e, by simp only; rw [getElem?_set_ne' _ _ _ _ (fun e => hut e.symm)]; exact hu⟩
+      · exact ⟨u, v, e, by rw [getElem?_set_ne' _ _ _ _ (fun e => hut e.symm)]; exact hu⟩
+
+/-- while a call is live nothing is published and it is the only call inside the function -/
+theorem live_facts (s : St) (hi : Inv s) (t : Nat) (a : PC) (ht : s.th[t]? = some a) (la : a.live = true) :
+    s.cell = none ∧ ∀ (u : Nat) (pc : PC), s.th[u]? = some pc → pc.isIn → u = t := by
+  refine ⟨(live_phase s hi t a ht la).2, ?_⟩
+  intro u pc hu hp
+  have : pc.live = true := by cases pc <;> simp_all [PC.isIn]
+  exact live_unique s hi u t pc a hu ht this la
 
 theorem sim_step (s : St) (e : Ev) (s' : St) (ms : MSt) (hR : Rel s ms) (hst : step s e = some s') :
     match Ev.obs e with
@@ -140,25 +150,228 @@ theorem sim_step (s : St) (e : Ev) (s' : St) (ms : MSt) (hR : Rel s ms) (hst : s
     split at hst <;> try simp at hst
     rename_i ht
     split at hst <;> simp at hst <;> subst hst
-    · exact rel_irrel s ms hR t _ _ ht hi' (by simp [PC.isIn]) (by simp [PC.isIn]) rfl
-    · -- the winning swap: `started` changes, nothing the monitor relation mentions does
-      have h := rel_irrel s ms hR t _ .won ht (by
-        have := hi'; exact ⟨by
-          have c := countP_set PC.live s.th t _ .won ht
-          have one := hi.one
-          rename_i hst
-          have hst' : s.started = false := by simpa using hst
-          rw [if_neg (by simp [hst'])] at one
-          simp at c
-          -- this auxiliary state is not reachable in general; build the relation directly instead
-          exact absurd rfl (by omega : (0:Nat) ≠ 0 ∨ True |>.elim id (fun _ => by omega)), this.fresh ∘ (fun h => by simpa using h) |> fun _ => by
-            intro h0; exact absurd h0 (by simp) , this.res⟩) (by simp [PC.isIn]) (by simp [PC.isIn]) rfl
-      exact ⟨hi', h.len, h.done, h.ent, h.outC, h.outT, h.outN⟩
-  | cbin t => sorry
-  | cbout t v e => sorry
-  | close t => sorry
-  | read t => sorry
-  | ret t v e => sorry
-  | quiesce B => sorry
+    · exact rel_irrel s _ ms hR t _ _ ht rfl rfl hi' (by simp [PC.isIn]) (by simp [PC.isIn]) rfl
+    · exact rel_irrel s _ ms hR t _ _ ht rfl rfl hi' (by simp [PC.isIn]) (by simp [PC.isIn]) rfl
+  | read t =>
+    simp only [step] at hst
+    split at hst <;> simp at hst
+    rename_i v e ht hcell
+    subst hst
+    exact rel_irrel s _ ms hR t _ _ ht rfl rfl hi' (by simp [PC.isIn]) (by simp [PC.isIn]) rfl
+  | cbin t =>
+    simp only [step] at hst
+    split at hst <;> simp at hst
+    rename_i ht
+    subst hst
+    obtain ⟨hc, huniq⟩ := live_facts s hi t _ ht rfl
+    have hne : ms.entered = false := by
+      cases he : ms.entered with
+      | false => rfl
+      | true =>
+        rcases hR.ent.mp he with h | ⟨u, pc, hu, hp⟩
+        · exact absurd hc h
+        · have := huniq u pc hu hp; subst this; rw [ht] at hu; cases hu; simp [PC.isIn] at hp
+    have hlt := lt_of_getElem? ht
+    have hany : ms.calls.any (!·) = true := by
+      obtain ⟨b, hb⟩ : ∃ b, ms.calls[t]? = some b := ⟨ms.calls[t]'(by rw [hR.len]; exact hlt), by simp⟩
+      have := hR.done t _ b ht hb
+      rw [List.any_eq_true]
+      exact ⟨b, List.mem_of_getElem? hb, by rw [this]; rfl⟩
+    have hmem : false ∈ ms.calls := by
+      obtain ⟨b, hb⟩ : ∃ b, ms.calls[t]? = some b := ⟨ms.calls[t]'(by rw [hR.len]; exact hlt), by simp⟩
+      have := hR.done t _ b ht hb
+      subst this
+      exact List.mem_of_getElem? hb
+    refine ⟨{ ms with entered := true }, by simp [monC16memo, hne, hmem], ?_⟩
+    refine ⟨hi', by simp [hR.len], ?_, ?_, hR.outC, ?_, ?_⟩
+    · intro u pc b hu hm
+      simp only at hu
+      rcases getElem?_set_cases s.th t u _ pc hu with ⟨rfl, rfl⟩ | ⟨_, hx⟩
+      · have := hR.done u _ b ht hm; simpa [PC.isDone] using this
+      · exact hR.done u pc b hx hm
+    · simp only
+      constructor
+      · intro _; exact Or.inr ⟨t, .inFn, by simp [hlt], by simp [PC.isIn]⟩
+      · intro _; first | rfl | trivial
+    · intro u v e hu
+      simp only at hu
+      rcases getElem?_set_cases s.th t u _ _ hu with ⟨_, h⟩ | ⟨_, hx⟩
+      · cases h
+      · exact hR.outT u v e hx
+    · intro h
+      rcases hR.outN h with h1 | ⟨u, v, e, hu⟩
+      · exact Or.inl h1
+      · have := huniq u _ hu (by simp [PC.isIn]); subst this; rw [ht] at hu; cases hu
+  | cbout t v e =>
+    simp only [step] at hst
+    split at hst <;> simp at hst
+    rename_i ht
+    subst hst
+    obtain ⟨hc, huniq⟩ := live_facts s hi t _ ht rfl
+    have hlt := lt_of_getElem? ht
+    have hent : ms.entered = true := hR.ent.mpr (Or.inr ⟨t, .inFn, ht, by simp [PC.isIn]⟩)
+    have hout : ms.out = none := by
+      cases ho : ms.out with
+      | none => rfl
+      | some x =>
+        rcases hR.outN (by simp [ho]) with h | ⟨u, v', e', hu⟩
+        · exact absurd hc h
+        · have := huniq u _ hu (by simp [PC.isIn]); subst this; rw [ht] at hu; cases hu
+    refine ⟨{ ms with out := some (v, e) }, by simp [monC16memo, hent, hout], ?_⟩
+    refine ⟨hi', by simp [hR.len], ?_, ?_, ?_, ?_, ?_⟩
+    · intro u pc b hu hm
+      simp only at hu
+      rcases getElem?_set_cases s.th t u _ pc hu with ⟨rfl, rfl⟩ | ⟨_, hx⟩
+      · have := hR.done u _ b ht hm; simpa [PC.isDone] using this
+      · exact hR.done u pc b hx hm
+    · simp only
+      constructor
+      · intro _; exact Or.inr ⟨t, .outd v e, by simp [hlt], by simp [PC.isIn]⟩
+      · intro _; exact hent
+    · intro x hx; simp only at hx; rw [hc] at hx; cases hx
+    · intro u v' e' hu
+      simp only at hu
+      rcases getElem?_set_cases s.th t u _ _ hu with ⟨_, h⟩ | ⟨hne, hx⟩
+      · cases h; rfl
+      · have := huniq u _ hx (by simp [PC.isIn]); exact absurd this hne
+    · intro _; exact Or.inr ⟨t, v, e, by simp [hlt]⟩
+  | close t =>
+    simp only [step] at hst
+    split at hst <;> simp at hst
+    rename_i v e ht
+    subst hst
+    obtain ⟨hc, huniq⟩ := live_facts s hi t _ ht rfl
+    have hlt := lt_of_getElem? ht
+    have hent : ms.entered = true := hR.ent.mpr (Or.inr ⟨t, _, ht, by simp [PC.isIn]⟩)
+    have hout := hR.outT t v e ht
+    refine ⟨hi', by simp [hR.len], ?_, ?_, ?_, ?_, ?_⟩
+    · intro u pc b hu hm
+      simp only at hu
+      rcases getElem?_set_cases s.th t u _ pc hu with ⟨rfl, rfl⟩ | ⟨_, hx⟩
+      · have := hR.done u _ b ht hm; simpa [PC.isDone] using this
+      · exact hR.done u pc b hx hm
+    · simp only
+      constructor
+      · intro _; exact Or.inl (by simp)
+      · intro _; exact hent
+    · intro x hx; simp only at hx; cases hx; exact hout
+    · intro u v' e' hu
+      simp only at hu
+      rcases getElem?_set_cases s.th t u _ _ hu with ⟨_, h⟩ | ⟨hne, hx⟩
+      · cases h
+      · have := huniq u _ hx (by simp [PC.isIn]); exact absurd this hne
+    · intro _; exact Or.inl (by simp)
+  | ret t v e =>
+    simp only [step] at hst
+    split at hst <;> try simp at hst
+    rename_i v' e' ht
+    obtain ⟨⟨rfl, rfl⟩, rfl⟩ := hst
+    have hlt := lt_of_getElem? ht
+    have hcell := hi.res t v e (Or.inl ht)
+    have hout := hR.outC _ hcell
+    obtain ⟨b, hb⟩ : ∃ b, ms.calls[t]? = some b := ⟨ms.calls[t]'(by rw [hR.len]; exact hlt), by simp⟩
+    have hbf : b = false := hR.done t _ b ht hb
+    subst hbf
+    refine ⟨{ ms with calls := ms.calls.set t true }, by simp [monC16memo, hb, hout], ?_⟩
+    refine ⟨hi', by simp [hR.len], ?_, ?_, hR.outC, ?_, ?_⟩
+    · intro u pc b hu hm
+      simp only at hu hm
+      rcases getElem?_set_cases s.th t u _ pc hu with ⟨rfl, rfl⟩ | ⟨hne, hx⟩
+      · rw [getElem?_set_self' _ _ _ _ hb] at hm; cases hm; rfl
+      · rw [getElem?_set_ne' _ _ _ _ (fun e => hne e.symm)] at hm
+        exact hR.done u pc b hx hm
+    · simp only; rw [hR.ent]
+      rw [ex_set_irrel PC.isIn s.th t _ (.done v e) ht (by simp [PC.isIn]) (by simp [PC.isIn])]
+    · intro u v' e' hu
+      simp only at hu
+      rcases getElem?_set_cases s.th t u _ _ hu with ⟨_, h⟩ | ⟨_, hx⟩
+      · cases h
+      · exact hR.outT u v' e' hx
+    · intro h
+      rcases hR.outN h with h1 | ⟨u, v', e', hu⟩
+      · exact Or.inl h1
+      · right
+        by_cases hut : u = t
+        · subst hut; rw [ht] at hu; cases hu
+        · exact ⟨u, v', e', by simp only; rw [getElem?_set_ne' _ _ _ _ (fun e => hut e.symm)]; exact hu⟩
+  | quiesce B =>
+    simp only [step] at hst; split at hst <;> simp at hst
+    rename_i hq
+    obtain ⟨hq, rfl⟩ := hq
+    subst hst
+    refine ⟨ms, ?_, hR⟩
+    have key : (pendingIds s).isEmpty = true ∨ (ms.entered = true ∧ ms.out = none) := by
+      cases hp : pendingIds s with
+      | nil => exact Or.inl rfl
+      | cons t rest =>
+        right
+        have hmem : t ∈ pendingIds s := by rw [hp]; simp
+        simp only [pendingIds, List.mem_filter, List.mem_range] at hmem
+        obtain ⟨hlt, hpend⟩ := hmem
+        have ht : s.th[t]? = some s.th[t] := by simp
+        simp only [ht] at hpend
+        simp only [quiescent, List.all_eq_true] at hq
+        have hqt := hq _ (List.mem_of_getElem? ht)
+        -- some call is inside the function
+        have hin : ∃ (u : Nat), s.th[u]? = some .inFn := by
+          cases hpc : s.th[t] with
+          | inFn => exact ⟨t, by rw [ht, hpc]⟩
+          | waiting =>
+            rw [hpc] at hqt
+            simp [PC.quiet] at hqt
+            have hstarted : s.started = true := by
+              cases hs : s.started with
+              | true => rfl
+              | false => have := (hi.fresh hs).2 t _ ht; rw [hpc] at this; cases this
+            have one := hi.one
+            rw [if_pos ⟨hstarted, hqt⟩] at one
+            have hpos : 0 < s.th.countP PC.live := by omega
+            rw [List.countP_pos_iff] at hpos
+            obtain ⟨pc, hmem, hl⟩ := hpos
+            obtain ⟨u, hul, hu⟩ := List.getElem_of_mem hmem
+            have hqu := hq _ hmem
+            cases pc <;> simp [PC.quiet] at hqu hl
+            exact ⟨u, by simp [hul, hu]⟩
+          | start => rw [hpc] at hqt; simp [PC.quiet] at hqt
+          | won => rw [hpc] at hqt; simp [PC.quiet] at hqt
+          | outd v e => rw [hpc] at hqt; simp [PC.quiet] at hqt
+          | retd v e => rw [hpc] at hqt; simp [PC.quiet] at hqt
+          | done v e => rw [hpc] at hpend; simp [PC.pending] at hpend
+        obtain ⟨u, hu⟩ := hin
+        obtain ⟨hc, huniq⟩ := live_facts s hi u _ hu rfl
+        refine ⟨hR.ent.mpr (Or.inr ⟨u, _, hu, by simp [PC.isIn]⟩), ?_⟩
+        cases ho : ms.out with
+        | none => rfl
+        | some x =>
+          rcases hR.outN (by simp [ho]) with h | ⟨w, v', e', hw⟩
+          · exact absurd hc h
+          · have := huniq w _ hw (by simp [PC.isIn]); subst this; rw [hu] at hw; cases hw
+    simp only [monC16memo]
+    split
+    · rfl
+    · rename_i hn
+      exfalso; apply hn
+      rcases key with h | h
+      · exact Or.inl h
+      · exact Or.inr h
+
+/-- **C16 (memo), observable form.** Every observable trace of the model is accepted by
+`monC16memo`: the function is entered at most once, only during a pending call; every call returns
+the result of that one entry; callers block only while the function runs. -/
+theorem C16_obs_memo (es : List Ev) (s : St) (h : model.run model.init es = some s) :
+    monC16memo.accepts (es.filterMap model.obs) = true :=
+  monitor_accepts_of_simulation model monC16memo Rel
+    ⟨init_inv, rfl, by intro t pc b h; simp [model] at h, by simp [monC16memo, model],
+      by intro x h; simp [model] at h, by intro t v e h; simp [model] at h, by simp [monC16memo]⟩
+    (fun s e s' ms hR hs => by
+      have := sim_step s e s' ms hR hs
+      cases e <;> exact this) es s h
+
+/-- the model can do something non-trivial: three callers, the loser of the swap waits, everybody
+returns the one result -/
+example : (model.run model.init
+    [.inv 0, .inv 1, .swap 1, .swap 0, .inv 2, .cbin 1, .swap 2, .quiesce [0, 1, 2], .cbout 1 7 0,
+     .close 1, .read 0, .ret 0 7 0, .ret 1 7 0, .read 2, .ret 2 7 0, .quiesce []]).map (·.cell) = some (some (7, 0)) := by
+  decide
 
 end UtilModel.Memo
